@@ -76,6 +76,54 @@ class _Conv:
         return k
 
 
+def in_situ(ctx, traces, meta):
+    """RLE objects the library creates itself (RP66V1 XML index and HTML scan of generated files) and the ones created by the
+    repository's own tests, recorded call by call from the harness process and validated like every other history."""
+    import contextlib
+    import io
+    import os
+    from .. import rletrace
+    from . import c18
+    from TotalDepth.RP66V1 import IndexXML, ScanHTML
+    from TotalDepth.RP66V1.core import LogicalFile
+    from TotalDepth.common import Slice
+    rng = ctx.subrng('c16-insitu')
+    wd = ctx.wdir('insitu')
+    n0 = len(traces)
+    with rletrace.record_rle() as recs:
+        for t in range(ctx.pick(12, 120)):
+            data, _truth = c18.build_nasty_dlis(rng)
+            pin = os.path.join(wd, 'f%d.dlis' % t)
+            with open(pin, 'wb') as f:
+                f.write(data)
+            try:
+                with LogicalFile.LogicalIndex(pin) as li:
+                    IndexXML.write_logical_file_sequence_to_xml(li, io.StringIO(), False)
+                ScanHTML.html_scan_RP66V1_file_data_content(pin, io.StringIO(), False, Slice.Slice(), False)
+            except Exception as e:
+                ctx.fail('indexing a generated RP66V1 file raised %s: %s' % (type(e).__name__, e), dict(file=t), sig=dict(kind='insitu-exception'))
+            os.remove(pin)
+        nlib = len(recs)
+        import pytest
+        root = repo.REPO if os.path.isdir(os.path.join(repo.REPO, 'tests')) else '/repo'
+        tfile = os.path.join(root, 'tests/unit/common/test_Rle.py')
+        if os.path.exists(tfile):
+            with open(os.devnull, 'w') as devnull, contextlib.redirect_stdout(devnull), contextlib.redirect_stderr(devnull):
+                rc = pytest.main(['-q', '-p', 'no:cacheprovider', '--no-header', '-W', 'ignore', '--rootdir', root, tfile])
+            ctx.notes['repo_test_Rle_exit_code'] = int(rc)
+    judged = 0
+    for i, r in enumerate(recs):
+        if not r.judged or not r.ev:
+            continue
+        judged += 1
+        traces.append(r.ev)
+        meta.append(dict(kind='insitu_library' if i < nlib else 'insitu_repo_test', seq=r.vals[:40]))
+        ctx.case(('insitu', i), len(r.vals) > 2)
+    ctx.notes['insitu_rle_objects'] = dict(recorded=len(recs), judged=judged, from_library=nlib)
+    if judged == 0:
+        ctx.vacuity.append('no RLE object of the library or the repository tests was recorded')
+
+
 def run(ctx):
     repo.setup()
     from TotalDepth.common import Rle
@@ -230,6 +278,7 @@ def run(ctx):
         traces.append(tr)
         meta.append(dict(kind='rle_float', scale=scale, off=off, seq=seq))
         ctx.case(('float', t), True)
+    in_situ(ctx, traces, meta)
     ctx.sample(dict(meta=meta[len(meta) // 7], events=traces[len(meta) // 7][:12]))
     ctx.sample(dict(meta=meta[-1], events=traces[-1][:6]))
     rej = ctx.validate_traces('RleTrace', 'RleTrace', traces, workers=16, max_reject=12)
